@@ -174,6 +174,8 @@ pub struct Ctx {
     cur_section: String,
     viol_sigs: BTreeSet<String>,
     pub exhaustive: bool,
+    /// optional per-property signature normaliser applied to every violation signature
+    pub sig_norm: Option<fn(&str) -> String>,
 }
 
 impl Ctx {
@@ -216,6 +218,7 @@ impl Ctx {
             cur_section: String::new(),
             viol_sigs: BTreeSet::new(),
             exhaustive: false,
+            sig_norm: None,
         }
     }
 
@@ -312,6 +315,15 @@ impl Ctx {
     /// Report a violation. `sig` is the exact known-finding key (must not
     /// contain run-specific data); `detail` is the human-readable witness.
     pub fn violation(&mut self, sig: &str, detail: String) {
+        let normed;
+        let (sig, detail) = match self.sig_norm {
+            Some(f) => {
+                normed = f(sig);
+                let d = format!("fine signature: {sig}\n{detail}");
+                (normed.as_str(), d)
+            }
+            None => (sig, detail),
+        };
         self.violations += 1;
         // one full report per signature per shard, the rest only counted
         if !self.viol_sigs.insert(sig.to_string()) && !self.verbose {
